@@ -213,6 +213,9 @@ class BuildError(ToolError):
     pass
 
 
+REPLAYED = [0]
+
+
 def run_replay(binp, cases, name, jobs=None, per_case_timeout=60, fresh_process=False):
     """Runs harness `replay` over cases (list of dicts with unique 'id'), in parallel worker
     processes.  A worker that dies (abort, signal) is restarted after the case in flight, which is
@@ -220,6 +223,7 @@ def run_replay(binp, cases, name, jobs=None, per_case_timeout=60, fresh_process=
     wd = os.path.join(WORK, "replay", name)
     shutil.rmtree(wd, ignore_errors=True)
     os.makedirs(wd, exist_ok=True)
+    REPLAYED[0] += len(cases)
     jobs = jobs or NCPU
     jobs = max(1, min(jobs, (len(cases) + 49) // 50))
     if fresh_process:
@@ -444,7 +448,11 @@ class Ctx:
             "samples": self.samples if self.samples else [{"note": "no sample recorded"}],
             "states": self.states,
             "transitions": self.transitions,
-            "traces_validated_against_impl": self.traces,
+            # behaviours bound to the implementation: TLC-generated cases replayed through the real code (S->I) plus
+            # recorded events of the real code validated by a trace specification (I->S)
+            "traces_validated_against_impl": self.traces + REPLAYED[0],
+            "recorded_events_validated_by_tlc": self.traces,
+            "tlc_generated_cases_replayed": REPLAYED[0],
             "parts": self.parts,
         }
         if self.exhaustive is not None:
